@@ -4,6 +4,7 @@
 //! case   {"flow": name, "ticks": [ {"a": [...], "b": [...]}, ... ]}
 //! result {"ticks": [ {"out": [...], ...}, ... ]}
 //! case   {"k": "syntax"} -> {"syntax": {flow: surface syntax of the emitted DFIR graph}}
+//! case   {"k": "ir", "flow": name} -> {"ir": serde dump of the HydroRoot list the builder produced}
 //! case   {"k": "syntax", "flow": name} -> {"syntax": surface syntax of that flow's DFIR graph}
 use std::cell::RefCell;
 use std::collections::VecDeque;
@@ -135,6 +136,13 @@ macro_rules! paste_mod {
 include!("../flows_table.rs");
 
 fn run(case: &Value) -> Value {
+    if case.get("k").and_then(|k| k.as_str()) == Some("ir") {
+        let f = case.get("flow").and_then(|f| f.as_str()).unwrap_or("");
+        return match IRJSON.iter().find(|(n, _)| *n == f) {
+            Some((_, s)) => json!({"ir": serde_json::from_str::<Value>(s).unwrap_or(Value::Null)}),
+            None => json!({"bad_case": format!("unknown flow {f}")}),
+        };
+    }
     if case.get("k").and_then(|k| k.as_str()) == Some("syntax") {
         if let Some(f) = case.get("flow").and_then(|f| f.as_str()) {
             return match SYNTAX.iter().find(|(n, _)| *n == f) {
